@@ -4,6 +4,7 @@ import ColoVerif.Proofs.Transp1dKept
 import ColoVerif.Proofs.Transp1dBalanced
 import ColoVerif.Proofs.Transp1dOptMain
 import ColoVerif.Proofs.Transp1dOptLocal
+import ColoVerif.Proofs.Transp1dChecksMain
 /-!
 # C14 — one-dimensional transportation is optimal and its rounding is memory-safe
 
@@ -12,6 +13,10 @@ driver `drv_C14` executes against `Transportation1d::{solve, assign, balanceDema
 The model's only unbounded loop (`while` in `Transportation1dSolver::push`) runs on the fuel
 `loopFuel = 2 * nbSinks + events.size() + 3`, which `Proofs/Transp1dTerm.lean` proves sufficient on
 the whole domain: the theorems below are unconditional ("never errors" includes `outOfFuel`).
+The last section is about `solveFull` (`Model/Transp1dChecks.lean`): `solve()` together with the
+self-checks it runs (`check`, `solver.check`, `checkSolutionValid`, `checkSolutionOptimal`), which
+the driver executes on every case (`full`) and, on malformed inputs and mutated plans, check by
+check (`chk`, `schk`, `val`, `opt`), including which exception is thrown.
 -/
 namespace ColoVerif.C14
 open ColoVerif.Transp1d
@@ -326,6 +331,179 @@ theorem balanceDemand_covers (pb : Problem) (hs : pb.s.length = pb.u.length)
 
 example : balanceDemand ⟨[3, 1], [0, 5], [4, 1], [1, 1]⟩ = .ok ⟨[3, 1], [0, 5], [4, 1], [3, 2]⟩ := by
   decide
+
+/-! ## the self-checks of `solve()` -/
+
+/-- FULL.  The input checks accept every input of the domain: `Transportation1d::check()` on the
+problem, and `Transportation1dSolver::check()` (base check, sizes of the prefix sums, `checkSorted`,
+`checkNonZeroCapacities`) on the instance the sorter hands to the solver. -/
+theorem checks_accept_valid_input (pb : Problem) (h : InDomain pb) :
+    checkInput pb = .ok () ∧ solverCheck (sortedSolver pb) 0 = .ok () :=
+  ⟨(checkInput_ok_iff pb).mpr ((checkOk_iff pb).mpr h), sortedSolver_check pb ((checkOk_iff pb).mpr h)⟩
+
+/-- FULL.  `Transportation1d::check()` accepts exactly the domain of C14 (for every input, sizes
+of the four vectors arbitrary). -/
+theorem checks_accept_iff_in_domain (pb : Problem) : checkInput pb = .ok () ↔ InDomain pb :=
+  (checkInput_ok_iff pb).trans (checkOk_iff pb)
+
+/-- non-vacuity (zeros, unsorted positions) -/
+example : checkInput ⟨[5, 0, 3], [4, 9, 1], [2, 0, 1], [2, 0, 3]⟩ = .ok () ∧
+    solverCheck (sortedSolver ⟨[5, 0, 3], [4, 9, 1], [2, 0, 1], [2, 0, 3]⟩) 0 = .ok () := by decide
+
+/-- FULL.  For every input of the domain the two solution checks accept the plan `solve()` computes
+on the instance handed to the solver: `checkSolutionValid` (the plan is valid) and
+`checkSolutionOptimal` (no chain of moves to neighbouring sinks ending in a sink with spare capacity
+has positive gain; derived from the dual certificate behind `t1d_optimal`: the running gain of a
+scan from `snk` to `nxt` is at most `be nxt - be snk ≤ 0`; with exact balance no sink has spare
+capacity).  Entries of `gainRight`/`gainLeft` are read only for sinks that receive something: the
+`LLONG_MIN` sentinel (F11) never enters the arithmetic (`CkErr.sentinel` is an error). -/
+theorem solve_passes_own_checks (pb : Problem) (h : InDomain pb) :
+    ∃ p sol, run (sortedSolver pb) = .ok p ∧ computeSolution (sortedSolver pb) p = .ok sol ∧
+      checkSolutionValid (sortedSolver pb).toProblem sol = .ok () ∧
+      checkSolutionOptimal (sortedSolver pb) sol = .ok () := by
+  obtain ⟨p, sol, h1, h2, h3, h4, _⟩ := solve_own_checks pb ((checkOk_iff pb).mpr h)
+  exact ⟨p, sol, h1, h2, h3, h4⟩
+
+/-- non-vacuity: positions [2,2] and plan of u=[5,0,3], v=[4,9,1], s=[2,0,1], d=[2,0,3] -/
+example : computeSolution (sortedSolver ⟨[5, 0, 3], [4, 9, 1], [2, 0, 1], [2, 0, 3]⟩) [2, 2]
+      = .ok [(0, 0, 1), (1, 1, 2)] ∧
+    checkSolutionOptimal (sortedSolver ⟨[5, 0, 3], [4, 9, 1], [2, 0, 1], [2, 0, 3]⟩)
+      [(0, 0, 1), (1, 1, 2)] = .ok () := by decide
+
+/-- FULL.  `solve()` with all its self-checks never throws on an input of the domain (no
+`std::runtime_error` from any check, no out-of-range access, no sentinel arithmetic, no fuel
+exhaustion) and returns exactly the plan of `solve` — which is valid and of minimum cost. -/
+theorem solveFull_never_throws (pb : Problem) (h : InDomain pb) :
+    ∃ plan, solveFull pb = .ok plan ∧ solve pb = .ok plan ∧ validPlan pb plan = true ∧
+      ∀ plan', validPlan pb plan' = true → planCost pb plan ≤ planCost pb plan' := by
+  obtain ⟨plan, e1, e2⟩ := solveFull_ok pb ((checkOk_iff pb).mpr h)
+  obtain ⟨plan', e3, hv, ho⟩ := t1d_optimal pb h
+  rw [e2] at e3
+  cases e3
+  exact ⟨plan, e1, e2, hv, ho⟩
+
+example : solveFull ⟨[5, 0, 3], [4, 9, 1], [2, 0, 1], [2, 0, 3]⟩ = .ok [(2, 2, 1), (0, 0, 2)] := by
+  decide
+
+/-- FULL.  The checks only ever add exceptions: whenever `solveFull` returns, `solve` returns the
+same plan (for every input). -/
+theorem solveFull_refines_solve (pb : Problem) (plan : Plan) (h : solveFull pb = .ok plan) :
+    solve pb = .ok plan :=
+  solveFull_refines pb plan h
+
+/-! ### the error branches, class by class -/
+
+/-- FULL.  Outside the domain `check()` — hence `solve()` — throws (`std::runtime_error`; never an
+out-of-range access, whatever the sizes of the four vectors). -/
+theorem checks_reject_outside_domain (pb : Problem) (h : ¬ InDomain pb) :
+    (∃ s, checkInput pb = .error (.thrown s)) ∧ (∃ s, solveFull pb = .error (.thrown s)) :=
+  ⟨checkInput_rejects pb (fun hv => h ((checkOk_iff pb).mp hv)),
+    solveFull_rejects pb (fun hv => h ((checkOk_iff pb).mp hv))⟩
+
+/-- FULL.  Supplies whose number differs from the number of sources: "Inconsistant supplies". -/
+theorem checks_reject_supply_size (pb : Problem) (h : pb.s.length ≠ pb.u.length) :
+    checkInput pb = .error (.thrown .supSize) :=
+  checkInput_supSize pb h
+
+/-- FULL.  Demands whose number differs from the number of sinks: "Inconsistant demands". -/
+theorem checks_reject_demand_size (pb : Problem) (hs : pb.s.length = pb.u.length)
+    (h : pb.d.length ≠ pb.v.length) : checkInput pb = .error (.thrown .demSize) :=
+  checkInput_demSize pb hs h
+
+/-- FULL.  A negative supply: "Supplies must be non-negative". -/
+theorem checks_reject_negative_supply (pb : Problem) (hs : pb.s.length = pb.u.length)
+    (hd : pb.d.length = pb.v.length) (h : ∃ x ∈ pb.s, x < 0) :
+    checkInput pb = .error (.thrown .supNeg) :=
+  checkInput_supNeg pb hs hd h
+
+/-- FULL.  A negative demand (supplies non-negative): "Demands must be non-negative". -/
+theorem checks_reject_negative_demand (pb : Problem) (hs : pb.s.length = pb.u.length)
+    (hd : pb.d.length = pb.v.length) (hsn : ∀ x ∈ pb.s, 0 ≤ x) (h : ∃ x ∈ pb.d, x < 0) :
+    checkInput pb = .error (.thrown .demNeg) :=
+  checkInput_demNeg pb hs hd hsn h
+
+/-- FULL.  Total demand below total supply — in particular no sink but a positive supply: "The
+supply should be no larger than the demand". -/
+theorem checks_reject_excess_supply (pb : Problem) (hs : pb.s.length = pb.u.length)
+    (hd : pb.d.length = pb.v.length) (hsn : ∀ x ∈ pb.s, 0 ≤ x) (hdn : ∀ x ∈ pb.d, 0 ≤ x)
+    (h : pb.d.sum < pb.s.sum) : checkInput pb = .error (.thrown .supGtDem) :=
+  checkInput_supGtDem pb hs hd hsn hdn h
+
+/-- non-vacuity of the five classes (the last one: an empty sink side) -/
+example : checkInput ⟨[0, 1], [0], [1], [2]⟩ = .error (.thrown .supSize) ∧
+    checkInput ⟨[0], [0], [1], [2, 1]⟩ = .error (.thrown .demSize) ∧
+    checkInput ⟨[0, 1], [0], [1, -1], [2]⟩ = .error (.thrown .supNeg) ∧
+    checkInput ⟨[0], [0, 1], [1], [2, -1]⟩ = .error (.thrown .demNeg) ∧
+    checkInput ⟨[0], [], [1], []⟩ = .error (.thrown .supGtDem) := by decide
+
+/-- FULL.  `Transportation1dSolver::check()` on a solver built directly from an input of the domain
+(no sorter in front) rejects unsorted source positions … -/
+theorem checks_reject_unsorted_sources (pb : Problem) (h : InDomain pb) (i : Nat)
+    (hi : i + 1 < pb.u.length) (hlt : pb.u.getD (i + 1) 0 < pb.u.getD i 0) :
+    solverCheck (mkSolver pb.u pb.v pb.s pb.d) 0 = .error (.thrown .srcUnsorted) :=
+  solverCheck_srcUnsorted _ (mkSolver_wf _ _ _ _ h.1 h.2.1)
+    ((checkInput_ok_iff pb).mpr ((checkOk_iff pb).mpr h)) i hi hlt
+
+/-- … unsorted sink positions (sources sorted) … -/
+theorem checks_reject_unsorted_sinks (pb : Problem) (h : InDomain pb)
+    (hus : List.Pairwise (fun a b => a ≤ b) pb.u) (j : Nat)
+    (hj : j + 1 < pb.v.length) (hlt : pb.v.getD (j + 1) 0 < pb.v.getD j 0) :
+    solverCheck (mkSolver pb.u pb.v pb.s pb.d) 0 = .error (.thrown .snkUnsorted) :=
+  solverCheck_snkUnsorted _ (mkSolver_wf _ _ _ _ h.1 h.2.1)
+    ((checkInput_ok_iff pb).mpr ((checkOk_iff pb).mpr h)) hus j hj hlt
+
+/-- … a zero supply (positions sorted) … -/
+theorem checks_reject_zero_supply (pb : Problem) (h : InDomain pb)
+    (hus : List.Pairwise (fun a b => a ≤ b) pb.u) (hvs : List.Pairwise (fun a b => a ≤ b) pb.v)
+    (h0 : (0 : Int) ∈ pb.s) :
+    solverCheck (mkSolver pb.u pb.v pb.s pb.d) 0 = .error (.thrown .supZero) :=
+  solverCheck_supZero _ (mkSolver_wf _ _ _ _ h.1 h.2.1)
+    ((checkInput_ok_iff pb).mpr ((checkOk_iff pb).mpr h)) hus hvs h0
+
+/-- … and a zero demand (positions sorted, supplies positive). -/
+theorem checks_reject_zero_demand (pb : Problem) (h : InDomain pb)
+    (hus : List.Pairwise (fun a b => a ≤ b) pb.u) (hvs : List.Pairwise (fun a b => a ≤ b) pb.v)
+    (hsp : ∀ x ∈ pb.s, 0 < x) (h0 : (0 : Int) ∈ pb.d) :
+    solverCheck (mkSolver pb.u pb.v pb.s pb.d) 0 = .error (.thrown .demZero) :=
+  solverCheck_demZero _ (mkSolver_wf _ _ _ _ h.1 h.2.1)
+    ((checkInput_ok_iff pb).mpr ((checkOk_iff pb).mpr h)) hus hvs hsp h0
+
+/-- non-vacuity of the four classes -/
+example : solverCheck (mkSolver [1, 0] [0, 1] [1, 1] [1, 1]) 0 = .error (.thrown .srcUnsorted) ∧
+    solverCheck (mkSolver [0, 1] [1, 0] [1, 1] [1, 1]) 0 = .error (.thrown .snkUnsorted) ∧
+    solverCheck (mkSolver [0, 1] [0, 1] [0, 1] [1, 1]) 0 = .error (.thrown .supZero) ∧
+    solverCheck (mkSolver [0, 1] [0, 1] [1, 1] [0, 2]) 0 = .error (.thrown .demZero) := by decide
+
+/-- FULL.  `checkSolutionValid` accepts exactly the valid plans: with consistent sizes and entries in
+range it returns normally iff every amount is positive, every supply is met exactly and no demand is
+exceeded; otherwise it throws (never an index error). -/
+theorem checkSolutionValid_accepts_iff (pb : Problem) (hs : pb.s.length = pb.u.length)
+    (hd : pb.d.length = pb.v.length) (sol : Plan)
+    (hr : ∀ e ∈ sol, e.1 < pb.u.length ∧ e.2.1 < pb.v.length) :
+    (checkSolutionValid pb sol = .ok () ↔ validPlan pb sol = true) ∧
+    (validPlan pb sol ≠ true → ∃ s, checkSolutionValid pb sol = .error (.thrown s)) := by
+  refine ⟨⟨fun h => ?_, checkSolutionValid_ok pb hs hd sol⟩, checkSolutionValid_rejects pb hs hd sol hr⟩
+  by_cases hv : validPlan pb sol = true
+  · exact hv
+  · obtain ⟨s, e⟩ := checkSolutionValid_rejects pb hs hd sol hr hv
+    rw [e] at h
+    cases h
+
+/-- non-vacuity: a non-positive amount, an unmet supply, an exceeded demand -/
+example : checkSolutionValid ⟨[0, 1], [0, 1], [1, 1], [1, 1]⟩ [(0, 0, 1), (1, 1, 1), (1, 0, 0)]
+      = .error (.thrown .allocNonPos) ∧
+    checkSolutionValid ⟨[0, 1], [0, 1], [1, 1], [1, 1]⟩ [(0, 0, 1)] = .error (.thrown .supNotMet) ∧
+    checkSolutionValid ⟨[0, 1], [0, 1], [1, 1], [1, 1]⟩ [(0, 0, 1), (1, 0, 1)]
+      = .error (.thrown .demExceeded) := by decide
+
+/-- The error branches of `checkSolutionOptimal` are reachable: a valid plan that ships to the far
+sink although the near one has spare capacity is flagged, to the right and to the left (the
+correspondence stream exercises both on mutated plans on every run). -/
+theorem checks_reject_improving_moves :
+    checkSolutionOptimal (mkSolver [5] [0, 5] [1] [1, 1]) [(0, 0, 1)]
+      = .error (.thrown .improvingRight) ∧
+    checkSolutionOptimal (mkSolver [0] [0, 5] [1] [1, 1]) [(0, 1, 1)]
+      = .error (.thrown .improvingLeft) := by decide
 
 /-! ## the defect repaired by F10 -/
 
